@@ -247,3 +247,13 @@ Proof.
   intros x steps t c cl l Hwf Hc Hl. apply run_call_confined; [exact Hc|].
   destruct (derive_keeps_limits steps x Hwf) as (_ & Hi & _). apply Hi. exact Hl.
 Qed.
+
+Theorem derive_keeps_limits_only : forall steps x, xwf x ->
+  incl (enforced_limits (x_h x)) (enforced_limits (x_h (fst (derive x steps))))
+  /\ (forall l, h_shard (x_h x) = Some l -> h_shard (x_h (fst (derive x steps))) = Some l).
+Proof. intros steps x H. exact (proj2 (derive_keeps_limits steps x H)). Qed.
+
+Theorem every_exported_method_modelled_and_extracted :
+  db_methods_problem = false /\
+  forall m a, In (m, a) db_methods -> (exists cl, call_name cl = m) /\ access_of m = a.
+Proof. exact (conj (proj2 gen_methods_covered) every_db_method_modelled). Qed.
